@@ -120,6 +120,7 @@ def witness_fn(kind, recs_samples, extra):
         d.update({k: (val(v) if isinstance(v, Sym) else v) for k, v in extra.items()})
         tap = Ctx.cur.notes.get("tukey", {}) if Ctx.cur is not None else {}
         d["taper"] = {str(k[0]): [val(x) for x in v] for k, v in tap.items()}
+        d["taper"].update({f"{k[0]}:{float(k[1])}": [val(x) for x in v] for k, v in tap.items()})      # per (length, shape parameter)
         return d
     return w
 
@@ -449,9 +450,16 @@ def _patched(spec):
     """real library with the same bounded environment: tukey -> the witness taper, nextpow2 floor -> n_fft."""
     import hvsrpy
     from hvsrpy import processing as P, timeseries as T
-    tap = {int(k): np.array(v, dtype=float) for k, v in spec.get("taper", {}).items()}
+    tap = {int(k): np.array(v, dtype=float) for k, v in spec.get("taper", {}).items() if ":" not in str(k)}
+    tap2 = {str(k): np.array(v, dtype=float) for k, v in spec.get("taper", {}).items() if ":" in str(k)}
     real_tukey = T.tukey
-    T.tukey = lambda n, alpha=0.5, sym=True: tap[n].copy() if n in tap else real_tukey(n, alpha=alpha)
+
+    def tukey(n, alpha=0.5, sym=True):
+        k = f"{n}:{float(alpha)}"
+        if k in tap2:
+            return tap2[k].copy()
+        return tap[n].copy() if n in tap else real_tukey(n, alpha=alpha)
+    T.tukey = tukey
     real_np2 = P.nextpow2
     P.nextpow2 = lambda n, minimum_power_of_two=spec["nfft"]: real_np2(n, minimum_power_of_two)
     return hvsrpy, P, T, (real_tukey, real_np2)
